@@ -200,6 +200,18 @@ static std::string cap_end()
   close(nul);
   return std::string(b.begin(), b.end());
 }
+// the caller's key buffer at every alignment: the key is placed at offset (first key byte & 7) of an aligned store, so that
+// random keys exercise all eight residues (code that reads the key in words must not depend on where the caller keeps it)
+static u8_t *place_key(const bytes &k)
+{
+  alignas(16) static u8_t store[4][96];
+  static int slot = 0;
+  u8_t *base = store[slot++ & 3];
+  size_t off = k.empty() ? 0 : (k[0] & 7);
+  memset(base, 0xA5, 96);
+  memcpy(base + off, k.data(), k.size() < 80 ? k.size() : 80);
+  return base + off;
+}
 static int result_code(const std::string &txt)
 {
   if (txt.find("Verification passed!") != std::string::npos || txt.find("Decryption is over!") != std::string::npos)
@@ -230,7 +242,7 @@ static std::string op_enc(const std::vector<std::string> &a)
   bool r;
   {
     Settings st(cm, hm, true);
-    runcrypt rc(fin, fo, key.data(), st, (u8_t)T);
+    runcrypt rc(fin, fo, place_key(key), st, (u8_t)T);
     r = rc.execute_encrypt(plain.size(), seed.data());
   }
   bytes after = read_file(inpath);
@@ -256,7 +268,7 @@ static std::string op_fault(const std::vector<std::string> &a)
     seed.push_back(0);
     FILE *fin = open_mem(&in, "r", false);
     Settings st(cm, hm, true);
-    runcrypt rc(fin, fo, key.data(), st, (u8_t)T);
+    runcrypt rc(fin, fo, place_key(key), st, (u8_t)T);
     r = rc.execute_encrypt(in.data.size(), seed.data());
   }
   else
@@ -267,7 +279,7 @@ static std::string op_fault(const std::vector<std::string> &a)
     in.fail_total = strtoull(a[4].c_str(), NULL, 10);
     FILE *fin = open_mem(&in, "r", false);
     Settings st(-1, -1, true);
-    runcrypt rc(fin, fo, key.data(), st, (u8_t)T);
+    runcrypt rc(fin, fo, place_key(key), st, (u8_t)T);
     r = rc.execute_decrypt(in.data.size());
   }
   std::ostringstream o;
@@ -287,7 +299,7 @@ static std::string op_decver(const std::vector<std::string> &a, bool dec)
   cap_begin();
   {
     Settings st(-1, -1, false);
-    runcrypt rc(fin, fo, key.data(), st, (u8_t)T);
+    runcrypt rc(fin, fo, place_key(key), st, (u8_t)T);
     r = dec ? rc.execute_decrypt(file.size()) : rc.execute_verify(file.size());
   }
   int code = result_code(cap_end());
@@ -317,7 +329,7 @@ static std::string op_paths(const std::vector<std::string> &a)
     size_t sz = ftell(fin);
     fseek(fin, 0, SEEK_SET);
     Settings st(atoi(a[1].c_str()), atoi(a[2].c_str()), true);
-    runcrypt rc(fin, fo, key.data(), st, (u8_t)atoi(a[3].c_str()));
+    runcrypt rc(fin, fo, place_key(key), st, (u8_t)atoi(a[3].c_str()));
     r = rc.execute_encrypt(sz, seed.data());
   }
   else
@@ -330,7 +342,7 @@ static std::string op_paths(const std::vector<std::string> &a)
     size_t sz = ftell(fin);
     fseek(fin, 0, SEEK_SET);
     Settings st(-1, -1, true);
-    runcrypt rc(fin, fo, key.data(), st, (u8_t)atoi(a[1].c_str()));
+    runcrypt rc(fin, fo, place_key(key), st, (u8_t)atoi(a[1].c_str()));
     r = dec ? rc.execute_decrypt(sz) : rc.execute_verify(sz);
   }
   return r ? "OK -" : "FAIL";
@@ -634,14 +646,14 @@ static std::string handle(std::vector<std::string> &a)
     if (c == "hmac")
     {
       unsigned char out[64];
-      h.gethmac((u8_t)hm, k.data(), fp, out);
+      h.gethmac((u8_t)hm, place_key(k), fp, out);
       r = hex(out, h.get_length());
     }
     else
     {
       bytes st = unhex(a[5]);
       st.resize(64);
-      r = h.cmphmac((u8_t)hm, k.data(), fp, st.data()) ? "1" : "0";
+      r = h.cmphmac((u8_t)hm, place_key(k), fp, st.data()) ? "1" : "0";
     }
     fclose(fp);
     unlink(p.c_str());
